@@ -133,12 +133,12 @@ def compare_logs(real, model, tol, v, what, ordered=True):
 
 def run_nrt(p, v):
     try:
-        m = prog_model.Model(p).run()
+        # spawning a child does not influence anybody else's time; only a
+        # tempo change exactly when another clock's routine wakes would
+        m = prog_model.Model(p, interacting={'tempo'}).run()
     except prog_model.Ambiguous:
         raise Reject()
-    if m.simultaneous and any(
-            op[0] in ('pause', 'resume', 'stop', 'tempo')
-            for r in p['routines'].values() for op in r['body']):
+    if m.simultaneous:
         raise Reject()
     out = prog.run_nrt(p)
     tol = TOL_FLOAT if uses_nondyadic(p) else TOL_DYADIC
@@ -167,8 +167,10 @@ def run_nrt(p, v):
 def run_rt(case, v):
     p = case['prog']
     try:
-        m = prog_model.Model(p).run()
+        m = prog_model.Model(p, interacting={'tempo'}).run()
     except prog_model.Ambiguous:
+        raise Reject()
+    if m.simultaneous:
         raise Reject()
     horizon = float(m.last_event) + 1.0
     tol = TOL_FLOAT if uses_nondyadic(p) else TOL_DYADIC
@@ -201,16 +203,21 @@ def run_rt(case, v):
     return {'nontrivial': nt, 'labels': labels}
 
 
-def rt_cases(nondyadic=False):
+def rt_cases(nondyadic=False, tempo_ops=False):
     tape = st.lists(st.integers(0, 11), min_size=0, max_size=60)
     return st.fixed_dictionaries({
-        'prog': proggen.timing_program(apps=False, nondyadic=nondyadic),
+        'prog': proggen.timing_program(apps=False, nondyadic=nondyadic,
+                                       tempo_ops=tempo_ops),
         'tape_a': tape, 'tape_b': tape})
 
 
 def stages(ctx):
     return [
         Stage('rt', run_rt, rt_cases(), quick=150, thorough=1500),
+        Stage('rt_tempo', run_rt, rt_cases(tempo_ops=True), quick=100,
+              thorough=1000),
+        Stage('nrt_tempo', run_nrt, proggen.timing_program(tempo_ops=True),
+              quick=200, thorough=2000),
         Stage('nrt', run_nrt, proggen.timing_program(), quick=600,
               thorough=5000),
         Stage('nrt_float', run_nrt, proggen.timing_program(nondyadic=True),
